@@ -1036,3 +1036,41 @@ pub fn files_of(s: &Spec) -> Vec<(String, Option<String>)> {
   );
   out
 }
+
+/// Post-pass: SourceMapSource leaves (no inner map) get a map that is *longer than their text* - one or two more
+/// mapped segments on lines after the last line of the text, at columns before, at and behind the end column - as a map
+/// made for an earlier version of the file would have.  Segments stay sorted, indices stay inside the tables.
+/// Returns the number of leaves changed.
+pub fn overlong(s: &mut Spec, sels: &[u16], next: &mut usize) -> usize {
+  match s {
+    Spec::Sms { text, map, .. } => {
+      if map.sources.is_empty() {
+        return 0;
+      }
+      let sel = sels[*next % sels.len()] as u32;
+      *next += 1;
+      if sel % 4 == 3 {
+        return 0;
+      }
+      let (_, end) = positions(text);
+      let last = map.segs.last().map(|g| g.line).unwrap_or(0).max(end.0);
+      let mut line = last + 1 + (sel >> 2) % 2;
+      for k in 0..(1 + (sel >> 3) % 2) {
+        let col = match (sel >> (4 + 2 * k)) % 4 {
+          0 => 0,
+          1 => end.1.saturating_sub(1),
+          2 => end.1,
+          _ => end.1 + 2,
+        };
+        let orig = Orig { src: (sel >> 8) % map.sources.len() as u32, line: 1 + (sel >> 10) % 3, col: (sel >> 12) % 4, name: None };
+        map.segs.push(Seg { line, col, orig: Some(orig) });
+        line += 1;
+      }
+      1
+    }
+    Spec::Concat { children, .. } => children.iter_mut().map(|c| overlong(c, sels, next)).sum(),
+    Spec::Replace { inner, .. } => overlong(inner, sels, next),
+    Spec::Cached(inner) | Spec::Boxed(inner) => overlong(inner, sels, next),
+    _ => 0,
+  }
+}
